@@ -15,13 +15,15 @@ CONSTANTS
   EnJRot = FALSE
   EnViews = FALSE
   EnCompact = FALSE
+  EnPersist = FALSE
   EnRemove = FALSE
   FilterNames = {}
-  FixCovered = FALSE
+  FixCovered = TRUE
   FixSeqno = TRUE
   FixIdSeed = TRUE
   FixMetaSeqno = TRUE
+  FixTrkZero = TRUE
 VIEW View
 CONSTRAINT Bounded
-INVARIANTS PointEqScan ViewEqRef SeqnoAboveEntries SeqnoAboveJournal VisibleLeSeqno JournalsConsistent NothingNeededEvicted RecoveryNeverPanics DurableMatchesMemory DeletedNameAbsent FilesGone NoResurrection
+INVARIANTS PointEqScan ViewEqRef SeqnoAboveEntries SeqnoAboveJournal VisibleLeSeqno JournalsConsistent CrashSafe RecoveryNeverPanics DurableMatchesMemory DeletedNameAbsent FilesGone NoResurrection
 CHECK_DEADLOCK FALSE
